@@ -375,6 +375,13 @@ def eval_stream_case(flex, workdir, case):
         total = sum(len(w) for sess in rn['sessions'] for w in sess)
         queries.append("(sessions %d (%s))" % (2 * total + 50, " ".join(
             "(" + " ".join("(" + " ".join(str(b) for b in w) + ")" for w in sess) + ")" for sess in rn['sessions'])))
+    # C08_bytes_conserved on the same runs: do all steps keep yytext defined (hypothesis), is consumed ++ unread the input (conclusion)
+    nconserve = 0
+    for rn in allruns:
+        if len(rn['sessions']) == 1:
+            total = sum(len(w) for w in rn['sessions'][0])
+            queries.append("(conserve %d (%s))" % (2 * total + 50, " ".join("(" + " ".join(str(b) for b in w) + ")" for w in rn['sessions'][0])))
+            nconserve += 1
     sx = "(case %s\n%s\n(bolobs %d)\n(queries (%s)))\n" % (scanner.sx_program(prog), stream_sx(case['acts'], case['eofs'], case['lineno']),
                                                           1 if bol_obs else 0, "\n".join(queries))
     rc, out, err = scanner.run_driver(sx, workdir, timeout=120)
@@ -385,6 +392,12 @@ def eval_stream_case(flex, workdir, case):
         res['problems'].append(('driver-error', "rc=%s %s" % (rc, err[:300])))
         return res
     chunks = out.split("END\n")
+    cons = [c.strip() for c in chunks[len(allruns):len(allruns) + nconserve]]
+    res['conserve_hypothesis_holds'] = sum(1 for c in cons if "ok=true" in c)
+    res['conserve_runs'] = len(cons)
+    for c in cons:
+        if "ok=true" in c and "eq=true" not in c:
+            res['problems'].append(('driver-error', "the extracted machine contradicts C08_checked_runs_are_instances: " + c))
     for si, (rn, (rrc, revs, rerr)) in enumerate(zip(allruns, runs)):
         sources = [w for sess in rn['sessions'] for w in sess]
         mevs = parse_events(chunks[si].encode(), bol_obs) if si < len(chunks) else []
